@@ -4,7 +4,8 @@ import z3
 from pyvc.sym import SInt, SBool, SRef, Ref, NONE
 from pyvc.verify import Target, method, run_body, framed
 from pyvc import builtins as B
-from contracts.common import (make_locking_deque, view, is_fifo_put, is_lifo_put, is_tail, same_seq, class_const)
+from contracts.common import (make_locking_deque, view, is_fifo_put, is_lifo_put, is_tail, same_seq, class_const,
+                              overflow_keeps_order)
 from . import queue_targets as Q
 
 LEVEL = 'proof'
@@ -56,6 +57,8 @@ def t_ld_put(kind):
                 z3.And(D1.len >= 1, pos == x.e))
         c.prove('LockingDeque.%s:post/exact-when-room' % mname, z3.Implies(D0.len < D0.maxlen, pred(D0, D1, x.e)))
         c.prove('LockingDeque.%s:post/length-when-full' % mname, z3.Implies(D0.len >= D0.maxlen, D1.len == D0.len))
+        c.prove('LockingDeque.%s:post/overflow-displaces-one-and-keeps-the-order-of-the-rest' % mname,
+                z3.Implies(D0.len >= D0.maxlen, overflow_keeps_order(D0, D1, x.e, kind == 'fifo')), tags=('C16', 'C04'))
         c.prove('LockingDeque.%s:post/token-per-event-when-idle' % mname, z3.Implies(T0 == D0.len, T1 == D1.len))
         T_exp = z3.If(T0 < M, T0 + 1, T0)
         T_exp = z3.If(T_exp < D1.len, D1.len, T_exp)
